@@ -200,6 +200,7 @@ func (r *rewriter) rewrite() (bool, error) {
 	mapRange := map[*ast.RangeStmt]bool{}
 	closeCall := map[*ast.CallExpr]bool{}
 	sleepCall := map[*ast.CallExpr]bool{}
+	shuffleCall := map[*ast.CallExpr]bool{}
 	ast.Inspect(r.file, func(n ast.Node) bool {
 		switch x := n.(type) {
 		case *ast.RangeStmt:
@@ -232,6 +233,8 @@ func (r *rewriter) rewrite() (bool, error) {
 					switch full {
 					case "time.Sleep":
 						sleepCall[x] = true
+					case "math/rand.Shuffle":
+						shuffleCall[x] = true
 					case "reflect.Select", "time.After", "time.NewTimer", "time.Tick", "time.NewTicker", "time.AfterFunc":
 						r.fail(x, "%s is not supported by the instrumenter", full)
 					}
@@ -303,6 +306,9 @@ func (r *rewriter) rewrite() (bool, error) {
 				r.needRT, r.changed = true, true
 			case sleepCall[x]:
 				x.Fun = rtSel("Sleep")
+				r.needRT, r.changed = true, true
+			case shuffleCall[x]:
+				x.Fun = rtSel("Shuffle")
 				r.needRT, r.changed = true, true
 			}
 		case *ast.RangeStmt:
